@@ -111,7 +111,27 @@ func cmdC19(args []string) {
 					}
 				}
 			}()
-			t.emit(map[string]any{"ev": "Iter", "tree": raw, "k": k, "out": direct, "late": late, "panicked": pan, "rout": ranged, "rpanicked": rpan})
+			// (c) ONE iterator value ranged over twice: first with a break after k items, then to the end
+			again, apan := []int{}, false
+			func() {
+				defer func() {
+					if p := recover(); p != nil {
+						apan = true
+					}
+				}()
+				seq := cfgerrors.All(err)
+				i := 0
+				for range seq {
+					if i++; i >= k {
+						break
+					}
+				}
+				for e := range seq {
+					again = append(again, idOf(e))
+				}
+			}()
+			t.emit(map[string]any{"ev": "Iter", "tree": raw, "k": k, "out": direct, "late": late, "panicked": pan, "rout": ranged, "rpanicked": rpan,
+				"again": again, "apanicked": apan})
 			runs++
 		}
 		if len(jt.C) > 0 && len(jt.C[0].C) > 0 {
